@@ -33,28 +33,33 @@ def judge (mode : Sexp) (want : List Row) (got : List Row) : Option Bool :=
     | some ks => some (showBag want == showBag got && isSortedBy ks got)
     | none => none
 
+def handleQuery (mode plan db impl : Sexp) : String :=
+  match parsePlan plan, parseDb db with
+  | some p, some d =>
+    let r := evalPlan p d
+    match r, impl with
+    | .error .type, _ => "unsupported"
+    | .ok want, .list [.atom "ok", .list rows] =>
+      match rows.mapM parseRow with
+      | some got => match judge mode want got with
+        | some true => "ok"
+        | some false => "bad:ok " ++ showRows want
+        | none => "bad-op"
+      | none => "bad-op"
+    | .ok want, .list [.atom "err", .atom c] => s!"bad:ok {showRows want} (engine: err {c})"
+    | .error _, .list [.atom "err", .atom c] =>
+      -- both fail; a planner rejection is not a run-time failure of the reference
+      if c == "plan" || c == "notimpl" || c == "other" then s!"bad:{showErr (match r with | .error e => e | _ => .type)} (engine: err {c})" else "ok"
+    | .error _, .list [.atom "ok", _] => "unsupported"
+    | _, _ => "bad-op"
+  | _, _ => "bad-op"
+
 def handle (op : String) (arg : Sexp) : String :=
   match op, arg with
-  | "query", .list [mode, plan, db, impl] =>
-    match parsePlan plan, parseDb db with
-    | some p, some d =>
-      let r := evalPlan p d
-      match r, impl with
-      | .error .type, _ => "unsupported"
-      | .ok want, .list [.atom "ok", .list rows] =>
-        match rows.mapM parseRow with
-        | some got => match judge mode want got with
-          | some true => "ok"
-          | some false => "bad:ok " ++ showRows want
-          | none => "bad-op"
-        | none => "bad-op"
-      | .ok want, .list [.atom "err", .atom c] => s!"bad:ok {showRows want} (engine: err {c})"
-      | .error _, .list [.atom "err", .atom c] =>
-        -- both fail; a planner rejection is not a run-time failure of the reference
-        if c == "plan" || c == "notimpl" || c == "other" then s!"bad:{showErr (match r with | .error e => e | _ => .type)} (engine: err {c})" else "ok"
-      | .error _, .list [.atom "ok", _] => "unsupported"
-      | _, _ => "bad-op"
-    | _, _ => "bad-op"
+  | "query-notin-unaware-shape", .list [mode, plan, db, impl] => handleQuery mode plan db impl
+  | "query-trycast-literal-cmp", .list [mode, plan, db, impl] => handleQuery mode plan db impl
+  | "query-derived-global-count", .list [mode, plan, db, impl] => handleQuery mode plan db impl
+  | "query", .list [mode, plan, db, impl] => handleQuery mode plan db impl
   | "eval", .list [plan, db] =>
     match parsePlan plan, parseDb db with
     | some p, some d =>
